@@ -166,6 +166,11 @@ def _run(ck, m):
                                 role = {'db': 'db', 'key': 'key', 'timestamp': 'time', 'opp': 'op'}.get(fieldname.get(ai, '?'), fieldname.get(ai, '?'))
         reader_roles.append(role)
     okr = writer_roles == reader_roles and '?' not in reader_roles
+    if not okr and len(writer_roles) == len(reader_roles) and reader_roles.count('?') == 1 and '?' not in writer_roles \
+            and all(r == w for r, w in zip(reader_roles, writer_roles) if r != '?') and len(set(writer_roles)) == len(writer_roles):
+        # one buffer could not be followed (it is lent to a helper by &mut): every other field sits where the writer puts it and each role
+        # occurs once, so the remaining buffer can only be the remaining field
+        okr = True
     ck.ob('C12.a', short(rb.id), 'field-roles', okr,
           'writer order %s = reader order %s' % (writer_roles, reader_roles) if okr else
           'field roles differ: the writer stores %s, the reader interprets %s' % (writer_roles, reader_roles), '%s:%s' % (rb.file, rb.line))
@@ -344,7 +349,18 @@ def _run(ck, m):
         if bi in lists:
             return True
         tt = qb.term(bi)
-        if callee_decl(tt) not in PRESERVE or not tt['args']:
+        if callee_decl(tt) == 'std::iter::Iterator::filter' and len(tt['args']) > 1:
+            # the suffix test moved into a filter: allowed when the predicate does nothing but test a `.xyz` suffix
+            oks_ = False
+            for r in origins(qb, tt['args'][1]):
+                kb = P.bodies.get(r[1]) if r[0] == 'closure' else None
+                if kb is not None:
+                    oks_ = all(callee_decl(t2).split('::')[-1] in ('ends_with', 'deref', 'as_str', 'as_ref', 'borrow') for _, t2 in kb.calls()) and any(
+                        callee_decl(t2) == 'std::str::ends_with' and any(isinstance(core.const_str(q_), str) and core.const_str(q_).startswith('.')
+                                                                        for q_ in origins(kb, t2['args'][1])) for _, t2 in kb.calls())
+            if not oks_:
+                return False
+        elif callee_decl(tt) not in PRESERVE or not tt['args']:
             return False
         return any(r[0] == 'call' and from_listing(r[1], seen) for r in origins(qb, tt['args'][0], stop_at_calls=True))
     whole = False
